@@ -29,6 +29,8 @@ type bTreeContainers struct {
 func newBTreeContainers() *bTreeContainers {
 	return &bTreeContainers{
 		tree: treeNew(),
+		// a definitely-invalid key: "never looked anything up", see Reset
+		lastKey: ^uint64(0),
 	}
 }
 
@@ -95,6 +97,16 @@ type updater struct {
 func (btc *bTreeContainers) PutContainerValues(key uint64, typ byte, n int, mapped bool) {
 	a := updater{key, int32(n), typ, mapped}
 	btc.tree.Put(key, a.update)
+	btc.invalidateLookaside(key)
+}
+
+// invalidateLookaside forgets the cached container for key after the tree
+// entry was replaced behind the look-aside.
+func (btc *bTreeContainers) invalidateLookaside(key uint64) {
+	if key == btc.lastKey {
+		btc.lastKey = ^uint64(0)
+		btc.lastContainer = nil
+	}
 }
 
 func (btc *bTreeContainers) Remove(key uint64) {
@@ -219,6 +231,7 @@ func (btc *bTreeContainers) Repair() {
 // replace the given container.
 func (btc *bTreeContainers) Update(key uint64, fn func(*Container, bool) (*Container, bool)) {
 	btc.tree.Put(key, fn)
+	btc.invalidateLookaside(key)
 }
 
 // UpdateEvery calls fn (existing-container, existed), and expects
@@ -229,6 +242,8 @@ func (btc *bTreeContainers) UpdateEvery(fn func(uint64, *Container, bool) (*Cont
 	// currently not handling the error from this, but in practice it has
 	// to be io.EOF.
 	_ = e.Every(fn)
+	btc.lastKey = ^uint64(0)
+	btc.lastContainer = nil
 }
 
 type btcIterator struct {
